@@ -579,6 +579,8 @@ class PhysicalUnit(object):
         num = ''
         denom = ''
         for unit, power in self._names.items():
+            if unit[0] == '-':  # a negative numeric factor
+                unit = '(' + unit + ')'
             if power < 0:
                 denom = denom + '/' + unit
                 if power < -1:
